@@ -137,7 +137,7 @@ type AbsVal struct {
 	Stake  string `json:"stake"`
 	Accum  string `json:"accum"`
 	Absent uint64 `json:"absent"`
-	Bits   string `json:"bits"`
+	Bits   []int  `json:"bits"`
 	ToDrop bool   `json:"toDrop"`
 }
 
@@ -477,9 +477,9 @@ func ProjectDisk(nd *Node, st *types.AppState, u *Universe) *Abs {
 		"AddLimitOrder": c.AddLimitOrder, "RemoveLimitOrder": c.RemoveLimitOrder, "MoveStake": c.MoveStake, "LockStake": c.LockStake, "Lock": c.Lock,
 	}
 	for _, v := range st.Validators {
-		av := AbsVal{P: n.PubName(v.PubKey), Stake: v.TotalBipStake, Accum: v.AccumReward}
+		av := AbsVal{P: n.PubName(v.PubKey), Stake: v.TotalBipStake, Accum: v.AccumReward, Bits: []int{}}
 		if v.AbsentTimes != nil {
-			av.Bits = v.AbsentTimes.String()
+			av.Bits = bitsOf(v.AbsentTimes)
 			for i := 0; i < int(v.AbsentTimes.Size()); i++ {
 				if v.AbsentTimes.GetIndex(i) {
 					av.Absent++
@@ -763,9 +763,9 @@ func ProjectMem(nd *Node, u *Universe, height uint64) *Abs {
 	}
 	a.Price, a.PriceCoin = priceMap(cs.Commission().GetCommissions())
 	for _, v := range cs.Validators().GetValidators() {
-		av := AbsVal{P: n.PubName(v.PubKey), Stake: v.GetTotalBipStake().String(), Accum: v.GetAccumReward().String(), Absent: uint64(v.CountAbsentTimes()), ToDrop: v.IsToDrop()}
+		av := AbsVal{P: n.PubName(v.PubKey), Stake: v.GetTotalBipStake().String(), Accum: v.GetAccumReward().String(), Absent: uint64(v.CountAbsentTimes()), ToDrop: v.IsToDrop(), Bits: []int{}}
 		if v.AbsentTimes != nil {
-			av.Bits = v.AbsentTimes.String()
+			av.Bits = bitsOf(v.AbsentTimes)
 		}
 		a.Vals = append(a.Vals, av)
 	}
